@@ -95,7 +95,11 @@ impl<'a> Gen<'a> {
                 if self.r.chance(1, 3) {
                     let n = if self.r.chance(1, 6) {
                         // (now and then longer than one, two and three 64-byte blocks)
-                        if self.r.chance(1, 3) { self.r.range(60, 210) } else { self.r.range(1, 70) }
+                        if self.r.chance(1, 3) {
+                            if self.r.chance(1, 6) { self.r.range(300, 700) } else { self.r.range(60, 210) }
+                        } else {
+                            self.r.range(1, 70)
+                        }
                     } else {
                         self.r.range(1, 3)
                     };
@@ -156,6 +160,21 @@ impl<'a> Gen<'a> {
         let mut first = true;
         for _ in 0..n {
             let mut key = self.key();
+            // near-twins of a sibling's name: the same with trailing NULs / a blank / one more
+            // character, a prefix of it, another case (what a cache keyed on part of the name, or a
+            // comparison stopping early, would confuse)
+            if !used.is_empty() && self.o.escapes && self.r.chance(1, 12) {
+                let base = used[self.r.below(used.len() as u64) as usize].clone();
+                key = match self.r.below(7) {
+                    0 => format!("{}\u{0}", base),
+                    1 => format!("{}\u{0}\u{0}", base),
+                    2 => format!("{} ", base),
+                    3 => format!("{}{}", base, base.chars().last().unwrap_or('x')),
+                    4 => base.chars().take(base.chars().count().saturating_sub(1)).collect(),
+                    5 => base.to_uppercase(),
+                    _ => format!("\u{0}{}", base),
+                };
+            }
             if !self.o.dup_keys {
                 let mut tries = 0;
                 while used.contains(&key) {
